@@ -19,7 +19,8 @@ ASSUMPTIONS = ["posix_memalign returns a page not currently held; the parent all
                "bin operations are atomic (they run under the bin mutex of a multi-threaded allocator); weak-memory effects not modelled",
                "API contract: sizes >= 1, release/realloc only of live blocks with their true size"]
 RULE = ("op sequences new/acq/calloc/realloc/rel/destroy over one allocator; sizes from {1,8,16,31,32,33,...,511,512,513,4000} plus random; "
-        "release orders LIFO/FIFO/random/page-draining/striped; non-trivial = at least one page fully drained or a realloc crossing the "
+        "release orders LIFO/FIFO/random/page-draining/striped; for EVERY size class whole pages filled and released last-carved-first / first / "
+        "random, drained and re-acquired; non-trivial = at least one page fully drained or a realloc crossing the "
         "512-byte boundary; distinct by op-file hash")
 NOT_PROVED = []
 
@@ -94,9 +95,93 @@ def probe_consts():
     return c
 
 
+# ---- the purge bounds of s_sba_free_to_bin, translated from the source text (pointer expressions over uint8_t*)
+_TOK = re.compile(r"\s*(sizeof\s*\(\s*struct\s+page_header\s*\)|\(\s*uint8_t\s*\*\s*\)|bin\s*->\s*size|[A-Za-z_]\w*|\d+[uUlL]*|[-+*/()])")
+
+
+def _c_expr_to_lean(expr, env):
+    """tiny translator: + - * / parentheses, integer literals and the names in env; anything else is rejected"""
+    toks, pos = [], 0
+    expr = expr.strip()
+    while pos < len(expr):
+        m = _TOK.match(expr, pos)
+        if not m:
+            raise GenError(f"purge bound: cannot tokenise `{expr[pos:]}`")
+        toks.append(re.sub(r"\s+", "", m.group(1)))
+        pos = m.end()
+    i = 0
+
+    def atom():
+        nonlocal i
+        if i >= len(toks):
+            raise GenError(f"purge bound: unexpected end of `{expr}`")
+        tk = toks[i]
+        i += 1
+        if tk == "(uint8_t*)":           # cast of a pointer to a byte pointer: no scaling
+            return atom()
+        if tk == "(":
+            v = add()
+            if i >= len(toks) or toks[i] != ")":
+                raise GenError(f"purge bound: missing ) in `{expr}`")
+            i += 1
+            return f"({v})"
+        if tk.startswith("sizeof(structpage_header"):
+            return "hdrSize"
+        if tk in env:
+            return env[tk]
+        if re.fullmatch(r"\d+[uUlL]*", tk):
+            return tk.rstrip("uUlL")
+        raise GenError(f"purge bound: `{tk}` in `{expr}` is outside the translated subset")
+
+    def mul():
+        nonlocal i
+        v = atom()
+        while i < len(toks) and toks[i] in "*/":
+            op = toks[i]
+            i += 1
+            v = f"({v} {op} {atom()})"
+        return v
+
+    def add():
+        nonlocal i
+        v = mul()
+        while i < len(toks) and toks[i] in "+-":
+            op = toks[i]
+            i += 1
+            v = f"({v} {op} {mul()})"
+        return v
+    v = add()
+    if i != len(toks):
+        raise GenError(f"purge bound: trailing `{' '.join(toks[i:])}` in `{expr}`")
+    return v
+
+
+def purge_bounds():
+    """(lean text, C text) of page_start, page_end and the range test of the purge loop, from the source"""
+    src = open(os.path.join(cbuild.REPO, "source", "allocator_sba.c")).read()
+    m = re.search(r"static\s+void\s+s_sba_free_to_bin\s*\([^)]*\)\s*\{(.*?)\n\}\n", src, re.S)
+    if not m:
+        raise GenError("s_sba_free_to_bin not recognised")
+    body = re.sub(r"/\*.*?\*/", " ", m.group(1), flags=re.S)
+    ms = re.search(r"uint8_t\s*\*\s*page_start\s*=\s*([^;]+);", body)
+    me = re.search(r"uint8_t\s*\*\s*page_end\s*=\s*([^;]+);", body)
+    mc = re.search(r"if\s*\(\s*chunk\s*(>=|>)\s*page_start\s*&&\s*chunk\s*(<=|<)\s*page_end\s*\)", body)
+    mi = re.search(r"intptr_t\s+chunk_idx\s*=\s*\(intptr_t\)\s*bin->free_chunks\.length\s*;\s*for\s*\(\s*;\s*chunk_idx\s*>=\s*0\s*;\s*--chunk_idx\s*\)", body)
+    if not (ms and me and mc and mi):
+        raise GenError("purge loop of s_sba_free_to_bin not of the modelled shape (page_start / page_end / range test / index range)")
+    env0 = {"page": "page", "AWS_SBA_PAGE_SIZE": "pageSize", "bin->size": "binSz"}
+    start = _c_expr_to_lean(ms.group(1), env0)
+    end = _c_expr_to_lean(me.group(1), dict(env0, page_start="(purgeStart page binSz)"))
+    lo = {">=": "pageStart ≤ chunk", ">": "pageStart < chunk"}[mc.group(1)]
+    hi = {"<": "chunk < pageEnd", "<=": "chunk ≤ pageEnd"}[mc.group(2)]
+    return dict(start=start, end=end, lo=lo, hi=hi, c_start=" ".join(ms.group(1).split()), c_end=" ".join(me.group(1).split()),
+                c_test=" ".join(mc.group(0).split()))
+
+
 def regen(ctx):
     c = probe_consts()
     _consts.update(c)
+    pb = purge_bounds()
     lean = f"""/-! GENERATED by props/c03.py from /repo's source/allocator_sba.c (compiled sizeof/offsetof probe + source text) — do not edit. -/
 namespace AwsVerif.Gen.SbaConsts
 
@@ -114,6 +199,19 @@ def tagValue : Nat := {c['TAG_VALUE']}
 def hdrSize : Nat := {c['HDR_SIZE']}
 /-- width in bits of page_header.alloc_count -/
 def countBits : Nat := {c['COUNT_BITS']}
+
+/-! Purge loop of `s_sba_free_to_bin`, translated from the source text; `page` is the numeric address of the
+page base, `binSz` is `bin->size`. -/
+set_option linter.unusedVariables false in
+/-- `uint8_t *page_start = {pb['c_start']};` -/
+def purgeStart (page binSz : Nat) : Nat := {pb['start']}
+set_option linter.unusedVariables false in
+/-- `uint8_t *page_end = {pb['c_end']};` -/
+def purgeEnd (page binSz : Nat) : Nat := {pb['end']}
+/-- `{pb['c_test']}` -/
+def purgeHit (chunk pageStart pageEnd : Nat) : Prop := {pb['lo']} ∧ {pb['hi']}
+instance (chunk pageStart pageEnd : Nat) : Decidable (purgeHit chunk pageStart pageEnd) := by
+  unfold purgeHit; exact inferInstance
 
 end AwsVerif.Gen.SbaConsts
 """
@@ -306,6 +404,62 @@ def case_drain(rng):
     return b.finish()
 
 
+FULL_ORDERS = ["last-first/fifo", "last-first/lifo", "last-first/random", "last2-first/fifo", "fifo", "lifo", "random",
+               "first-last-alternating"]
+
+
+def case_fullpage(rng, cls, order, extra, pages=1):
+    """fill whole page(s) of one size class (every chunk carved, including the one that ends exactly at the
+    page boundary in the 32-byte class), release in the chosen order (last-carved first / first / random) so
+    that the page drains while its other chunks sit on the free list, then re-acquire until the free list is
+    exhausted and a new page is carved"""
+    b = Builder(rng)
+    pp = per_page(cls)
+    lo = cls // 2 + 1 if cls > 32 else 1
+    page_names = [[b.acq(cls if rng.random() < 0.6 else rng.randint(lo, cls)) for _ in range(pp)] for _ in range(pages)]
+    others = [b.acq(rng.randint(lo, cls)) for _ in range(extra)]       # open the next page: the bin has a cursor page
+    for names in page_names:
+        head, rest = [], list(names)
+        if order.startswith("last-first"):
+            head, rest = [names[-1]], names[:-1]
+        elif order.startswith("last2-first"):
+            head, rest = [names[-1], names[-2]], names[:-2]
+        sub = order.split("/")[-1]
+        if sub == "lifo":
+            rest = rest[::-1]
+        elif sub == "random":
+            rng.shuffle(rest)
+        elif sub == "first-last-alternating":
+            r2, i, j = [], 0, len(rest) - 1
+            while i <= j:
+                r2.append(rest[j])
+                if i < j:
+                    r2.append(rest[i])
+                i, j = i + 1, j - 1
+            rest = r2
+        for nm in head + rest:
+            b.rel_name(nm)
+    for _ in range(pp + 2):                                            # drains the free list, then carves a fresh page
+        b.acq(rng.randint(lo, cls))
+    b.tags["drain"] = 1
+    b.tags["fullpage"] = cls
+    b.release_all(rng.choice(ORDERS))
+    return b.finish()
+
+
+def fullpage_cases(rng, tier):
+    out = []
+    for cls in (32, 64, 128, 256, 512):
+        for order in FULL_ORDERS:
+            for extra in (0, 1):
+                out.append(case_fullpage(rng, cls, order, extra))
+        out.append(case_fullpage(rng, cls, "last-first/random", 1, pages=2))
+        if tier != "quick":
+            for _ in range(20):
+                out.append(case_fullpage(rng, cls, rng.choice(FULL_ORDERS), rng.randint(0, 3), pages=rng.choice([1, 2, 3])))
+    return out
+
+
 def case_cross(rng):
     """reallocations crossing the small/large boundary in both directions"""
     b = Builder(rng)
@@ -381,6 +535,7 @@ def gen_cases(rng, tier):
         cases.append(case_drain(rng))
     for _ in range(120 if quick else 2000):
         cases.append(case_cross(rng))
+    cases += fullpage_cases(rng, tier)
     cases += exhaustive_cases(4 if quick else 6)
     if not quick:
         cases += exhaustive_cases(5, cls=256)
@@ -413,9 +568,12 @@ def oracle(case, lines):
             errs.append(f"{op}: status line missing: {l}")
             return
         kv = dict((k, int(v)) for k, v in _kv.findall(l))
-        for k in ("disjoint", "align", "intact"):
+        for k in ("disjoint", "align", "intact", "owned"):
             if kv.get(k) != 1:
-                errs.append(f"{op}: harness monitor reports {k}={kv.get(k)} (real addresses / fill patterns of all live blocks)")
+                errs.append(f"{op}: harness monitor reports {k}={kv.get(k)} " +
+                            ("(a live block lies neither in a page the allocator currently holds nor in a block of the parent: "
+                             "memory of a page already returned to the OS)" if k == "owned" else
+                             "(real addresses / fill patterns of all live blocks)"))
         exp = sum(b["cls"] for b in live.values())
         if kv.get("active") != exp:
             errs.append(f"{op}: bytes_active={kv.get('active')} but the live small blocks' size classes sum to {exp}")
@@ -452,6 +610,10 @@ def oracle(case, lines):
         if l is None or not l.startswith(f"W {name} "):
             errs.append(f"{op}: identity line missing: {l}")
             return None, True
+        if l.endswith(" stray"):
+            errs.append(f"{op}: returned pointer is neither inside a page the allocator holds nor a block of the parent "
+                        "(e.g. a stale chunk of a page already returned to the OS)")
+            return None, False
         if l.endswith(" big"):
             return None, False
         if l.endswith(" gone"):
@@ -543,7 +705,7 @@ def nontrivial(case):
 
 def distribution(cases, c_out):
     d = {"acq": 0, "calloc": 0, "realloc": 0, "rel": 0, "destroy": 0, "mt1": 0, "cross_boundary_reallocs": 0, "drain_cases": 0,
-         "exhaustive_cases": 0, "small_results": 0, "big_results": 0, "pages_obtained_max": 0, "quiescent_points": 0}
+         "exhaustive_cases": 0, "fullpage_cases": 0, "small_results": 0, "big_results": 0, "pages_obtained_max": 0, "quiescent_points": 0}
     for i, c in enumerate(cases):
         for o in c.ops:
             k = o.split()[0]
@@ -554,6 +716,7 @@ def distribution(cases, c_out):
         d["cross_boundary_reallocs"] += c.tags.get("cross", 0)
         d["drain_cases"] += 1 if c.tags.get("drain") else 0
         d["exhaustive_cases"] += 1 if c.tags.get("exhaustive") else 0
+        d["fullpage_cases"] += 1 if c.tags.get("fullpage") else 0
         for l in c_out.get(i, []):
             if l.startswith("W p"):
                 if " page=" in l:
@@ -602,8 +765,31 @@ def extra_stages(ctx):
                               "threaded run on a multi-threaded allocator: " + (st[0] if st else f"rc={rc} (crash / sanitizer abort)"))
     ctx.cov["threaded_stress_runs_TEST"] = results
     ctx.notes.append("threaded stage is an OS-scheduled stress test (supporting run), not a proof over schedules")
+    plain_stage(ctx)
     if not quick:
         debug_stage(ctx)
+
+
+def plain_stage(ctx):
+    """the corpus and the whole-page cases once more on an uninstrumented (-O2, no sanitizer) library: there a chunk of a
+    page already returned to the OS is handed out silently, so it is the harness's ownership monitor (pages held /
+    parent blocks, from the wrapped posix_memalign/free and the recording parent) and the oracle that must flag it"""
+    try:
+        exe = cbuild.build_harness(**dict(HARNESS, flavour="plain"))
+    except cbuild.BuildError as e:
+        ctx.machinery_broken("build (plain flavour): " + str(e)[:2000])
+        return
+    cases = core.load_corpus(ID) + fullpage_cases(ctx.rng, "quick")
+    c_out, _, crashes = core.run_both(ctx, cases, exe, None, timeout=TIMEOUT)
+    ctx.cov["plain_build_cases"] = len(cases)
+    for i, c in enumerate(cases):
+        errs = oracle(c, c_out.get(i, []))
+        if not errs and i in crashes:
+            errs = ["crash: " + crashes[i][-600:]]
+        if errs:
+            ctx.violation(f"plain-{ctx.seed}-{i}", {"ops": c.ops, "flavour": "plain", "clause": errs[:3], "impl_output": c_out.get(i, [])[-12:]},
+                          "uninstrumented build, direct oracle: " + errs[0][:300])
+            break
 
 
 def debug_stage(ctx):
